@@ -151,9 +151,69 @@ fn gen_restart(rng: &mut Rng, rf: u8) -> String {
     format!("n {rf} 4 {n0} {n0} {}", ops.join(" "))
 }
 
+
+/// family co: two real coordinators (transaction::spawn on their own databases) against the real node X as their replica.
+/// The logs diverge: a coordinator behind X is answered StaleWrite, one level with X is answered Ok (a quorum for rf 2, 3;
+/// not for rf >= 4), one whose sequence is taken by another write waiting in X's buffer gets SequenceConflict, one ahead
+/// of X gets no answer (its write waits in X's buffer: the coordinator's 10 s time-out) - at most `slow` such writes.
+fn gen_co(rng: &mut Rng, rf: u8, mut slow: u32) -> String {
+    let n0x = rng.range(1, 3);
+    let mut rel = |rng: &mut Rng| -> u64 {
+        match rng.below(7) {
+            0..=2 => n0x,
+            3 => n0x - 1,
+            4 => rng.below(n0x + 1),
+            _ => if slow > 0 { n0x + rng.range(1, 2) } else { n0x },
+        }
+    };
+    let mut a0 = [rel(rng), rel(rng)];
+    // the common history is confirmed: a quorum of {X, A1, A2} must hold it (q - 1 coordinators at least level with X)
+    let q = q_of(rf);
+    if q >= 3 { a0 = [a0[0].max(n0x), a0[1].max(n0x)]; }
+    else if a0[0] < n0x && a0[1] < n0x { a0[rng.below(2) as usize] = n0x; }
+    let mut la = a0;
+    // the generator's idea of X (only to steer; the truth comes from the run)
+    let mut xnext = n0x;
+    let mut buf: std::collections::BTreeMap<u64, u64> = Default::default();
+    let mut apply = |xnext: &mut u64, buf: &mut std::collections::BTreeMap<u64, u64>, k: u64| {
+        *xnext += k;
+        loop {
+            buf.retain(|&s, _| s >= *xnext);
+            match buf.remove(&*xnext) { Some(k2) => *xnext += k2, None => break }
+        }
+    };
+    let mut ops: Vec<String> = Vec::new();
+    let mut tx = 0u64;
+    for _ in 0..rng.range(2, 6) {
+        tx += 1;
+        let k = if rng.chance(1, 4) { rng.range(2, 3) } else { 1 };
+        match rng.below(12) {
+            0 if buf.len() < 3 => {                                   // another coordinator's write waits ahead in X's buffer
+                let s = xnext + rng.range(1, 2);
+                if !buf.contains_key(&s) { ops.push(format!("xr,{},{s},1,-", 50 + tx)); buf.insert(s, 1); }
+            }
+            1 => { ops.push(format!("xr,{},{xnext},1,-", 50 + tx)); apply(&mut xnext, &mut buf, 1); }   // X moves on without the coordinators
+            2 => { ops.push(format!("a{},{tx},{k},b", rng.range(1, 2))); }                              // the coordinator's own database refuses
+            _ => {
+                let mut a = rng.below(2) as usize;
+                // a write ahead of X that finds its slot free is never answered: 10 s
+                let waits = |a: usize| la[a] > xnext && !buf.contains_key(&la[a]);
+                if waits(a) && slow == 0 { a = 1 - a; }
+                if waits(a) { if slow == 0 { continue; } slow -= 1; buf.insert(la[a], k); }
+                else if la[a] == xnext { apply(&mut xnext, &mut buf, k); }
+                ops.push(format!("a{},{tx},{k},-", a + 1));
+                la[a] += k;
+            }
+        }
+        if rng.chance(1, 3) { ops.push("b".into()); }
+    }
+    ops.push("b".into());
+    format!("co {rf} {n0x} {} {} {}", a0[0], a0[1], ops.join(" "))
+}
+
 pub fn generate(prop: &str, thorough: bool, rng: &mut Rng) -> Vec<String> {
     let c11 = prop == "C11";
-    let rfs: &[u8] = if thorough { &[1, 2, 3, 4, 5, 7] } else { &[1, 2, 3, 5] };
+    let rfs: &[u8] = if thorough { &[1, 2, 3, 4, 5, 7] } else { &[1, 2, 3, 4, 5] };
     let mut v = Vec::new();
     for &rf in rfs {
         let (nrep, nsync, nexec, nres) = match (thorough, c11) {
@@ -162,10 +222,14 @@ pub fn generate(prop: &str, thorough: bool, rng: &mut Rng) -> Vec<String> {
             (true, false) => (400, 90, if rf == 1 { 80 } else { 10 }, 12),
             (true, true) => (200, 60, if rf == 1 { 300 } else { 20 }, 12),
         };
+        let (nrep, nsync, nexec, nres) = if !thorough && rf == 4 { (0, 0, 0, 0) } else { (nrep, nsync, nexec, nres) }; // quick: rf 4 only for the coordinator family
         for i in 0..nrep { v.push(gen_rep(rng, rf, i % 5 == 4)); }
         for _ in 0..nsync { v.push(gen_sync(rng, rf)); }
         for _ in 0..nexec { v.push(gen_exec(rng, rf)); }
         for _ in 0..nres { v.push(gen_restart(rng, rf)); }
+        // the coordinator path with real replies: rf 2, 3 reach a quorum with the one replica, 4 (5 in thorough) never do
+        let nco = match (rf, thorough) { (1, _) => 0, (2 | 3, false) => 24, (_, false) => 6, (2 | 3, true) => 200, (_, true) => 40 };
+        for i in 0..nco { v.push(gen_co(rng, rf, if i % 8 == 7 { 1 } else { 0 })); }
     }
     v
 }
